@@ -182,8 +182,8 @@ def run(tier, only=None):
     rep = Report(PROP, tier, "PyBMC merged symbolic execution of validate.node (content x attributes x children symbolic together, both modes back to back) + z3")
     sd = common.seed()
     common.xs_enable(tier)
-    Lmax = 2 if tier == "quick" else 4
-    Lwide = 2 if tier == "quick" else 3
+    Lmax = 2 if tier == "quick" else 5
+    Lwide = 2 if tier == "quick" else 4
     elements = [only] if only else list(R.node_mappings.keys())
     random.Random(sd).shuffle(elements)
     jobs = []
